@@ -67,7 +67,7 @@ def world_candidates(sc):
         out.append(("one group", c))
     env = sc.get("env", {})
     defaults = {"list_mode": 0, "queue_wait": "immediate", "terminal_listed_s": 0.0, "squeue_pad": 20, "lat": None,
-                "skew": 0.0, "host_pool": 0, "foreign_jobs": 0, "p_stall": 0.0, "p_configuring": 0.0,
+                "skew": 0.0, "host_pool": 0, "foreign_jobs": 0, "p_stall": 0.0, "p_preempt": 0.0, "p_configuring": 0.0, "p_exotic_state": 0.0,
                 "first_job_id": 8100000, "stick": 0.85, "min_job_age": 300.0, "op_lat": 0.0}
     for k, v in defaults.items():
         if k in env and env[k] != v:
